@@ -19,10 +19,11 @@ func (v *Vue) evalInclude(ctx VueContext, node *html.Node, vars map[string]any, 
 	ctx.stack.Push(vars)
 	defer ctx.stack.Pop()
 
-	// Extract slot content from the component tag if not already processed
-	if ctx.SlotScope == nil {
-		ctx.SlotScope = extractSlotContent(node)
-	}
+	// Every include has its own slot content; it remembers the slot scope of the template
+	// that supplied it, so that the content is evaluated there
+	own := extractSlotContent(node)
+	own.parent = ctx.SlotScope
+	ctx.SlotScope = own
 
 	// Merge inherited slots from parent template (passed via __slotScope__ in data)
 	if inheritedSlotScopeData, ok := ctx.stack.EnvMap()["__slotScope__"]; ok {
